@@ -129,7 +129,7 @@ def run_witness(k):
         return None, str(ex)
 
 
-NOT_WITNESSES = {'w_edge_probe'}      # a probe of requests that the contracts exclude by precondition
+NOT_WITNESSES = {'w_edge_probe', 'w_known_nm_small_simplex'}      # a probe of requests that the contracts exclude by precondition; the witness of the recorded known finding
 
 
 def drivers_of(pid):
